@@ -34,6 +34,7 @@ func init() {
 			{ID: "C09-R8", Title: "VMs are not shared through process-wide containers", Floor: 1, Run: vmNotPooled},
 			{ID: "C09-R9", Title: "shared maps are not written under a read lock", Floor: 1, Run: noWritesUnderReadLock},
 			{ID: "C09-R10", Title: "no package-level standard-library object that is unsafe for concurrent use", Floor: 1, Run: noSharedUnsafeStdlibObjects},
+			{ID: "C09-R11", Title: "references shared with clones are not written through (shared with C07)", Floor: 3, Run: cloneAliasesNotWrittenThrough},
 		},
 	})
 }
@@ -65,6 +66,19 @@ func globalAccesses(g *ssa.Global, fns []*ssa.Function) []globalAccess {
 				case *ssa.Store:
 					if x.Addr == ssa.Value(g) {
 						out = append(out, globalAccess{f, instr, true, "assign"})
+					}
+				case *ssa.IndexAddr, *ssa.FieldAddr:
+					// element / field of an array- or struct-typed variable
+					if addrRoot(x.(ssa.Value)) == ssa.Value(g) {
+						w := false
+						if ir := x.(ssa.Value).Referrers(); ir != nil {
+							for _, rr := range *ir {
+								if st, ok := rr.(*ssa.Store); ok && st.Addr == x.(ssa.Value) {
+									w = true
+								}
+							}
+						}
+						out = append(out, globalAccess{f, instr, w, "element"})
 					}
 				case *ssa.UnOp:
 					if x.Op == token.MUL && x.X == ssa.Value(g) {
@@ -115,6 +129,20 @@ func globalAccesses(g *ssa.Global, fns []*ssa.Function) []globalAccess {
 		}
 	}
 	return out
+}
+
+// addrRoot: the variable an element / field address is computed from.
+func addrRoot(v ssa.Value) ssa.Value {
+	for {
+		switch x := v.(type) {
+		case *ssa.IndexAddr:
+			v = x.X
+		case *ssa.FieldAddr:
+			v = x.X
+		default:
+			return v
+		}
+	}
 }
 
 func isInitFunc(f *ssa.Function) bool {
